@@ -28,7 +28,7 @@ callback.  The ISO lane also runs the memory-limit exit path and values whose
 pickling fails with OSError / EOFError / MemoryError / any exception class.
 
 Lane PARENT (L1-lite): the real ResultHandler state handlers + ApplyResult fed
-with scripted ACK/READY messages in every seeded order relative to _cancel()."""
+with scripted ACK/READY messages in every seeded order relative to _cancel().  Parent lane: acknowledgements only come from free workers (one unanswered job per worker); a refused job has no owner and no acceptance time."""
 import os
 import signal
 import time
